@@ -101,6 +101,7 @@ func c06(c *eng.Ctx, r *eng.Report) {
 		"R6.2 AccountDB.SubBalance silently does nothing when funds are short, so every debit must be control-dependent on `GetBalance(sameAddress) >= sameAmount` computed in the same function with no debit of that account in between (or be the reviewed EVM Transfer behind CanTransfer), and a contract transaction's funds pre-check must not be followed by a further debit before execution; " +
 		"R6.3 the bottom-level SubFT implementations subtract only on the sufficient-funds edge, transferBalance rejects negative amounts, CanTransfer rejects negative amounts; " +
 		"R6.4 no floating-point value flows into an amount except through Float64ToBigInt at the reviewed stake sites. " +
+		"R6.5 a failed transaction is rolled back through the journal, so the journal entries that carry balances (storageChange: balances and token slots live in account data; suicideChange: the balance a self-destruct zeroed) are undone by exactly their paired raw writes on every path through undo (the C04 pairing rule applied to these entries). " +
 		"Not decided: the sums themselves; EVM-internal accounting beyond the CanTransfer/Transfer pairing."
 	r.Assume = []string{"balances change only through the AccountDB/StateDB methods listed in rules/c06.go", "a storage slot of the bound wRPG contract is only written by that contract's own code (EVM SSTORE) besides these methods"}
 	sites := moneySites(c)
@@ -108,6 +109,7 @@ func c06(c *eng.Ctx, r *eng.Report) {
 	c06Guards(c, r, sites)
 	c06Bottom(c, r)
 	c06Float(c, r, sites)
+	c04UndoAs(c, r, "R6.5", map[string]bool{"storageChange": true, "suicideChange": true}, 4)
 }
 
 func c06Classes(c *eng.Ctx, r *eng.Report, sites []moneySite) {
@@ -407,18 +409,25 @@ func c06Bottom(c *eng.Ctx, r *eng.Report) {
 	}
 	tb := c.Func("service", "transferBalance")
 	if r.Anchor(tb != nil, rule, "service.transferBalance") {
-		ok := false
+		// every balance-changing call of transferBalance sits behind the sign test
+		ok, nsites := true, 0
 		for _, s := range eng.Sites(tb) {
-			if strings.HasSuffix(s.Name(), ".AddBalance") {
-				for _, cd := range eng.CondsAt(s.Instr) {
-					if m, isM := cd.Cmp(); isM && strings.Contains(eng.Desc(m.X), ".Sign(") && m.Op == token.NEQ {
-						if k, isK := eng.ConstInt(m.Y); isK && k == -1 {
-							ok = true
-						}
+			nm := s.Name()
+			if i := strings.LastIndex(nm, "."); i < 0 || moneyMethods[nm[i+1:]] == "" || !strings.Contains(nm, "AccountDB") {
+				continue
+			}
+			nsites++
+			guarded := false
+			for _, cd := range eng.CondsAt(s.Instr) {
+				if m, isM := cd.Cmp(); isM && strings.Contains(eng.Desc(m.X), ".Sign(") {
+					if k, isK := eng.ConstInt(m.Y); isK && (m.Op == token.NEQ && k == -1 || m.Op == token.GEQ && k == 0 || m.Op == token.GTR && k == -1) {
+						guarded = true
 					}
 				}
 			}
+			ok = ok && guarded
 		}
+		ok = ok && nsites > 0
 		r.Check(ok, rule, "negative-amount:service.transferBalance", c.Pos(tb.Pos()), "negative transfer amounts are rejected before any balance changes", "transferBalance no longer rejects negative amounts: a negative transfer moves value backwards")
 	}
 	ct := c.Func(acctPkg, "(*AccountDB).CanTransfer")
